@@ -97,10 +97,11 @@ CHECKS["C19"] = {
   "technique": "Coq proof (invariant by induction over op lists) + differential correspondence",
 }
 
-PENDING_C11 = {'design_ref': 'DESIGN.md section 6 C11',
+CHECKS["C11"] = {'design_ref': 'DESIGN.md section 6 C11',
  'note': 'Trusted: as C16, plus tools/bep29.py. No axioms. Accept/reject theorems assume the input is a list '
-         'of bytes (bytes_okb). Partial: emitted-datagram clause not covered; round trip holds only for '
-         'headers with at most one extension (W1).',
+         'of bytes (bytes_okb). Partial: emitted-datagram clause not covered. Finding W1 (serialize with '
+         'SACK and close reason together wrote a malformed chain) was found by this check and is repaired in '
+         '/repo 2f571a9; model, theorems and generators are for the repaired code.',
  'technique': 'Coq proof (induction over the extension chain; iff with a declarative packet grammar) + '
               'enumerative/differential correspondence + independent-parser oracle',
  'text': 'Header level, all proved over every list of bytes / every header of the Gallina model of '
@@ -109,16 +110,16 @@ PENDING_C11 = {'design_ref': 'DESIGN.md section 6 C11',
          '(next,len,data) triples that fits) and returns the big-endian fields and the boundary 20 + '
          'sum(2+len) (iff, both directions); the panic sites of UtpMessage::deserialize are unreachable; '
          'payload present iff ST_DATA (iff); unknown extensions are skipped without moving the boundary; '
-         'parsed headers re-serialise to a stable 64-bit-SACK normal form. Round trip serialize/deserialize '
-         'is PROVED for every in-range header with at most one extension and REFUTED (theorem, for every '
-         'header) when selective_ack and close_reason are both present: the real serialize then writes a '
-         'malformed chain (known finding W1, replayed on the real code on every run; latent, the library '
-         'never sends a close reason). Model tied to the real code by structural enumeration of extension '
-         'chains x every truncation, random byte strings and random headers; the extracted predicates '
-         'c11_de_ok / c11_msg_ok / c11_ser_ok and an independent python BEP-29 parser are evaluated on the '
-         "implementation's own outputs. NOT covered here: the clause 'every datagram the library emits "
-         "carries version 1 and the connection id owed to that direction' (connection-level; only the "
-         'per-header serialiser is checked).'}
+         'serialising any in-range header whose SACK (if present) has the 64-bit length SelectiveAck::new '
+         'produces, into a buffer that holds it, and parsing the bytes back (any payload behind) yields the '
+         'same header and length; parsed headers with a SACK of another length re-serialise to that 64-bit '
+         'normal form, which is then stable (documented boundary of "any header", with a refutation witness '
+         'for the literal statement). Model tied to the real code by structural enumeration of extension '
+         'chains x every truncation, random byte strings and random headers (all combinations of SACK / '
+         'close reason / buffer length); the extracted predicates c11_de_ok / c11_msg_ok / c11_ser_ok and an '
+         "independent python BEP-29 parser are evaluated on the implementation's own outputs. NOT covered "
+         "here: the clause 'every datagram the library emits carries version 1 and the connection id owed to "
+         "that direction' (connection-level; only the per-header serialiser is checked)."}
 
 ALL = ["C%02d" % i for i in range(1, 20)]
 NOT_APPLICABLE = {p: "check not built yet at this commit (planned: DESIGN.md section 6); not claimed"
